@@ -3,7 +3,7 @@ import ast
 import math
 import re
 
-from ..src import walk, calls, call_name, dotted, const, loc, unparse, norm, AnchorError, ExtractError, last_attr, parent
+from ..src import loc, unparse, AnchorError, ExtractError
 from ..symx import SymExec, Opaque, State
 
 CTRL = "wntr/network/controls.py"
@@ -12,15 +12,24 @@ MODEL = "wntr/network/model.py"
 IO = "wntr/epanet/io.py"
 
 EXPLANATION = (
-    "Finite region evaluation (partial evaluation of the AST over representative orderings of previous time < current time against the threshold, "
-    "per relation and repeat mode) of SimTimeCondition.evaluate and TimeOfDayCondition.evaluate, compared with the instant/interval semantics of "
-    "the statement including the back-track value; the six priority sort sites of the simulator sort ascending by priority (highest priority writes "
-    "last) and the pre-solve list is stably re-sorted by descending back-track; abstract first iteration of the rule clock (rules must not be "
-    "evaluated before the first hydraulic solution); classification of controls into pre-solve / post-solve / rule managers; partial-step "
-    "bookkeeping (sim_time -= backtrack, return to the hydraulic grid); the INP reader / _time_control pass time, flag and repeat to the right "
-    "condition class. Decides the conditions' truth tables and the scheduler's structure, not EPANET's own timeline.")
-RULE_TEXT = "one instance = one (condition class, relation, repeat mode) truth table, one sort site, one path/bookkeeping fact"
-ASSUMPTIONS = ["previous solved time < current time; thresholds and times are whole seconds", "`ne` conditions are not required by the statement"]
+    "The facts are decided by EVALUATING the repository's code, not by matching its shape. (1) SimTimeCondition.evaluate and TimeOfDayCondition.evaluate are run "
+    "by a tree-walking interpreter (sa/concrete.py; nothing is imported or executed natively) on objects placed in every representative ordering of previous "
+    "time < current time against the threshold instants, per relation and repeat mode, and the returned truth value and back-track are compared with the "
+    "instant / interval semantics of the statement; the model's shifted-time properties are evaluated the same way. (2) The pre-solve scheduler, the feasibility "
+    "and the post-solve runner of the simulator are run by the same interpreter on stand-in controls, rules, checkers and change tracker over a family of "
+    "scenarios (ties reported out of priority order, several instants, rule instants before / at / after control instants, first step, continued run, with and "
+    "without trace logging) and the observable schedule -- which action runs in which order, at which times the rules are evaluated, the rule clock and sim_time "
+    "on return -- is compared with an independently computed oracle. (3) What run_sim hands to the scheduler (rule clock on a first step, return to the "
+    "hydraulic grid after a step) is obtained by path-enumerating symbolic execution with sympy normal forms. (4) The classification of controls (type stored "
+    "by Control / Rule per concrete condition class, which checker receives which type from which source) is obtained by symbolic execution in which the tests "
+    "are decided for one concrete case at a time and helpers are executed in place, so if-chains, early returns, conditional expressions and lookup tables are "
+    "alike. (5) The arguments with which Control._time_control and the INP reader build time conditions are read from the call events of symbolic execution, "
+    "bound by the callee's signature. Decides the conditions' truth tables and the scheduler's behaviour on the scenarios, not EPANET's own timeline.")
+RULE_TEXT = ("one instance = one (condition class, relation, repeat mode) truth table, one (scenario, aspect) of the simulated scheduler, one classification or "
+             "construction fact")
+ASSUMPTIONS = ["previous solved time < current time; thresholds and times are whole seconds", "`ne` conditions are not required by the statement",
+               "a control's effect on the scheduler is whether the change tracker reports a change; priorities are integers (ControlPriority is an IntEnum)",
+               "at one instant the rules act before the simple controls (WNTR's documented choice to match EPANET)"]
 
 H = 3600.0
 DAY = 86400.0
@@ -77,6 +86,8 @@ def make_world(repo, extra=None, fuel=60000000):
             setattr(np_, nm, f)
     cmp_ = comparison_enum()
     ov["wntr.network.controls.Comparison"] = cmp_
+    from ..concrete import Namespace
+    ov["six"] = Namespace("six", with_metaclass=lambda meta, *bases: (bases[0] if bases else object), string_types=(str,), integer_types=(int,))
     ov.update(extra or {})
     world = World(repo, ov, fuel=fuel)
     world.log_state = state          # {'log_level': n}: what the module loggers report as their effective level
@@ -173,11 +184,16 @@ def condition_rules(repo, chk):
         inst = instance_of(world, CTRL, cname, **attrs)
         res, err = interpreted("%s.evaluate" % cname, lambda: it.getattr_(inst, "evaluate")())
         bt = inst._attrs.get("_backtrack")
-        if err is None and not (res is True or res is False or isinstance(res, (int, float))):
+        if err is None and not (res is None or res is True or res is False or isinstance(res, (int, float))):
             raise ExtractError("%s.evaluate returned %r" % (cname, res))
         if bt is not None and not isinstance(bt, (int, float)):
             raise ExtractError("%s.evaluate left _backtrack = %r" % (cname, bt))
         return res, bt, err
+
+    def model_at(cur, prev, start):
+        """the network model as the conditions see it: a WaterNetworkModel object (its own time properties are the repository's) at the given times."""
+        opts = Mock("options", time=Mock("options.time", start_clocktime=start, rule_timestep=360, hydraulic_timestep=3600, pattern_timestep=3600, report_timestep=3600, duration=10 * DAY))
+        return instance_of(world, MODEL, "WaterNetworkModel", sim_time=cur, _prev_sim_time=prev, options=opts, _options=opts)
 
     def table(kind, rel, repeat):
         """-> list of (region, ok, detail).  Representative points of every ordering of previous < current time against the threshold instants:
@@ -191,7 +207,7 @@ def condition_rules(repo, chk):
                 for prev, cur in dense_pairs(30 if repeat else 8):
                     if prev == 0.0 and thr == 0.0:
                         continue      # the instant t = 0 is the initial state, not a crossing
-                    model = Mock("wn", sim_time=cur, _prev_sim_time=prev, _shifted_time=cur, _prev_shifted_time=prev)
+                    model = model_at(cur, prev, 0.0)
                     attrs = {"_model": model, "_threshold": thr, "_relation": getattr(cmp_, rel), "_repeat": (period if repeat else False), "_backtrack": 0, "_first_time": 0}
                     res, bt, err = evaluate("SimTimeCondition", attrs)
                     if err:
@@ -208,8 +224,7 @@ def condition_rules(repo, chk):
                             continue          # a once-only clock-time condition lives on its first day
                         if prev == 0.0 and (thr - start) % DAY == 0.0:
                             continue          # threshold instant == start of the simulation: initial state, not a crossing
-                        opts = Mock("options", time=Mock("options.time", start_clocktime=start))
-                        model = Mock("wn", _shifted_time=sc_, _prev_shifted_time=sp_, sim_time=cur, _prev_sim_time=prev, options=opts)
+                        model = model_at(cur, prev, start)
                         attrs = {"_model": model, "_threshold": thr, "_relation": getattr(cmp_, rel), "_repeat": bool(repeat), "_backtrack": 0, "_first_day": 0}
                         res, bt, err = evaluate("TimeOfDayCondition", attrs)
                         if err:
@@ -420,7 +435,15 @@ def simulator_instance(world, box, T, r, k0, pres, rules, extra=None):
     return instance_of(world, CORE, "WNTRSimulator", **attrs), wn
 
 
-def scheduler_rules(repo, chk):
+def sort_order_rules(repo, chk, rule):
+    """stable entry point (also used by C05): the ordering obligations only -- the order in which triggered pre-solve controls, rules,
+    feasibility and post-solve controls act -- reported under the given rule id."""
+    scheduler_rules(repo, chk, order=rule, clock=None, time=None)
+
+
+def scheduler_rules(repo, chk, order="R-C04-3", clock="R-C04-4", time="R-C04-6"):
+    """simulate the scheduler and the two other control runners on the scenarios and compare with the oracle; the three aspects (order of the
+    actions / rule clock / sim_time on return) are reported under the given rule ids, an aspect whose id is None is not reported."""
     sclasses = repo.classes(CORE)
     if "WNTRSimulator" not in sclasses:
         raise AnchorError("class WNTRSimulator vanished")
@@ -431,6 +454,10 @@ def scheduler_rules(repo, chk):
             raise AnchorError("WNTRSimulator.%s vanished" % nm)
     pre = smeths[SCHED]
     chk.fn(pre)
+
+    def expect(rule, cond, *a, **k):
+        if rule is not None:
+            chk.expect(cond, rule, *a, **k)
     pnames = [a.arg for a in pre.args.args]
     if len(pnames) != 2:
         raise AnchorError("%s: expected the parameters (self, first_step), found %s" % (SCHED, pnames))
@@ -453,24 +480,25 @@ def scheduler_rules(repo, chk):
             setting = "T = %d s, rule timestep %d s, rule clock %d, first_step = %s; pre-solve (name, priority, back-track, changes): %s; rules (name, priority, true from, to, changes): %s" % (
                 sc["T"], sc["r"], sc["k0"], sc["first"], sc["pres"], sc["rules"])
             if err:
-                for rule in ("R-C04-3", "R-C04-4", "R-C04-6"):
-                    chk.bad(rule, "[%s] the scheduler runs" % label, loc(pre), setting, found="raises " + err)
+                for rule in (order, clock, time):
+                    if rule is not None:
+                        chk.bad(rule, "[%s] the scheduler runs" % label, loc(pre), setting, found="raises " + err)
                 continue
-            chk.expect(runaway is None and got["runs"] == want["runs"], "R-C04-3",
+            expect(order, runaway is None and got["runs"] == want["runs"],
                        "[%s] actions run in time order and, at one instant, ascending by priority (the highest priority acts last and wins)" % label, loc(pre),
                        setting + " -- the scheduler rewinds to the first instant at which something changes and stops: an order whose primary key is not the firing "
                        "instant lets a control crossed later in the step pre-empt one crossed earlier; among equal instants the last writer wins",
                        expected=want["runs"], found=runaway or got["runs"])
-            chk.expect(runaway is None and got["checks"] == want["checks"] and got["k"] == want["k"], "R-C04-4",
+            expect(clock, runaway is None and got["checks"] == want["checks"] and got["k"] == want["k"],
                        "[%s] rules are evaluated at the consecutive multiples of the rule timestep up to the step's end, each once, and the rule clock ends after the last one evaluated" % label,
                        loc(pre), setting, expected="evaluated at %s, clock -> %s" % (want["checks"], want["k"]), found=runaway or "evaluated at %s, clock -> %s" % (got["checks"], got["k"]))
-            chk.expect(runaway is None and got["final"] == want["final"], "R-C04-6",
+            expect(time, runaway is None and got["final"] == want["final"],
                        "[%s] sim_time on return is the first instant at which something changed (the unshortened step if nothing did; never before t = 0 on the first step)" % label,
                        loc(pre), setting, expected=want["final"], found=runaway or got["final"])
-            chk.sample({"rule": "R-C04-3", "scenario": label, "runs": got["runs"], "rule_evaluations": got["checks"], "sim_time": got["final"], "rule_clock": got["k"]})
-    chk.floor("R-C04-3", len(SCENARIOS))
-    chk.floor("R-C04-4", len(SCENARIOS))
-    chk.floor("R-C04-6", len(SCENARIOS))
+            chk.sample({"rule": order or clock or time, "scenario": label, "runs": got["runs"], "rule_evaluations": got["checks"], "sim_time": got["final"], "rule_clock": got["k"]})
+    for rule in (order, clock, time):
+        if rule is not None:
+            chk.floor(rule, len(SCENARIOS))
 
     # the two other runners: feasibility and post-solve controls act ascending by priority (ties in reported order)
     for meth, attr, what in RUNNERS:
@@ -486,9 +514,9 @@ def scheduler_rules(repo, chk):
                 _, err = interpreted(meth, lambda: world.interp.getattr_(sim, meth)())
                 want = [x[0] for x in sorted(lst, key=lambda x: x[1])]
                 label = "%d %s controls reported as %s%s" % (len(lst), what, [(n, p) for n, p, _, _ in lst], " [trace logging on]" if log_level == 1 else "")
-                chk.expect(err is None and box["runs"] == want, "R-C04-3", "[%s] %s runs them ascending by priority (the highest priority acts last and wins)" % (label, meth), loc(fn),
+                expect(order, err is None and box["runs"] == want, "[%s] %s runs them ascending by priority (the highest priority acts last and wins)" % (label, meth), loc(fn),
                            "controls run in list order and later writes overwrite earlier ones", expected=want, found=err or box["runs"])
-                chk.expect(err is None and wn.sim_time == T0, "R-C04-6", "[%s] %s leaves sim_time alone" % (label, meth), loc(fn), expected=T0, found=err or wn.sim_time)
+                expect(time, err is None and wn.sim_time == T0, "[%s] %s leaves sim_time alone" % (label, meth), loc(fn), expected=T0, found=err or wn.sim_time)
 
 
 # ------------------------------------------------------------------ R-C04-4 / R-C04-6: what run_sim hands to the scheduler
@@ -562,6 +590,47 @@ def _forces_first_step(conds):
     return out[0] if out else None
 
 
+def _advance_slice(fn):
+    """the part of run_sim that moves the time: the innermost statement list containing every store to `<...>.sim_time`, from the first
+    such statement on (as a function of its own; the whole function if there is no such list).  Keeps the path enumeration small."""
+    def stores_time(node):
+        for x in ast.walk(node):
+            tg = x.targets if isinstance(x, ast.Assign) else ([x.target] if isinstance(x, (ast.AugAssign, ast.AnnAssign)) else [])
+            if any(isinstance(t, ast.Attribute) and t.attr == "sim_time" for t in tg):
+                return True
+        return False
+
+    def lists(node):
+        for f in ("body", "orelse", "finalbody"):
+            v = getattr(node, f, None)
+            if isinstance(v, list) and v and isinstance(v[0], ast.stmt):
+                yield v
+        for h in getattr(node, "handlers", []) or []:
+            yield h.body
+    best = fn.body
+    while True:
+        holders = [s for s in best if stores_time(s)]
+        if len(holders) != 1 or isinstance(holders[0], (ast.Assign, ast.AugAssign, ast.AnnAssign)):
+            break
+        inner = [l for l in lists(holders[0]) if any(stores_time(s) for s in l)]
+        if len(inner) != 1:
+            break
+        best = inner[0]
+    idx = [i for i, s in enumerate(best) if stores_time(s)]
+    if not idx:
+        return fn
+    body = list(best[idx[0]:])
+    # plus the plain assignments before it that define the temporaries it reads (hoisted sub-expressions)
+    needed = set(x.id for s in body for x in ast.walk(s) if isinstance(x, ast.Name) and isinstance(x.ctx, ast.Load))
+    for s in reversed(best[:idx[0]]):
+        tg = s.targets if isinstance(s, ast.Assign) else ([s.target] if isinstance(s, (ast.AugAssign, ast.AnnAssign)) else [])
+        names = set(x.id for t in tg for x in ast.walk(t) if isinstance(x, ast.Name))
+        if tg and names & needed and all(isinstance(t, (ast.Name, ast.Tuple, ast.List)) for t in tg):
+            body.insert(0, s)
+            needed |= set(x.id for x in ast.walk(s) if isinstance(x, ast.Name) and isinstance(x.ctx, ast.Load))
+    return ast.FunctionDef(name=fn.name, args=fn.args, body=body, decorator_list=[], returns=None, lineno=fn.lineno, col_offset=0)
+
+
 def run_sim_rules(repo, chk):
     rs = repo.func(CORE, "WNTRSimulator.run_sim")
     chk.fn(rs)
@@ -600,7 +669,7 @@ def run_sim_rules(repo, chk):
     import sympy as sp
     tx = TrackingExec({"self._wn.sim_time"})
     finals = {}
-    for o in tx.run(rs):
+    for o in tx.run(_advance_slice(rs)):
         if o.raised is not None:
             continue
         i, v = _last_store(o, "self._wn.sim_time")
@@ -771,6 +840,18 @@ class DecidedExec(object):
             if v is None:
                 return None
             return (v == node.comparators[0].value) == isinstance(node.ops[0], (ast.Eq, ast.Is))
+        if isinstance(node, ast.Name) and node.id in st.env:
+            # a hoisted test (`timed = isinstance(...) or ...; x if timed else y`): decide the expression the temporary stands for
+            v = st.env[node.id]
+            if isinstance(v, bool):
+                return v
+            if isinstance(v, Opaque) and v.text != node.id:
+                try:
+                    inner = ast.parse(v.text, mode="eval").body
+                except SyntaxError:
+                    return None
+                return None if isinstance(inner, ast.Name) else self._bool(inner, st)
+            return None
         return self.leaf(node, st, self.ex)
 
     # helpers executed in place
@@ -997,7 +1078,7 @@ def classification_rules(repo, chk, rule):
                 mm = re.match(r"^(.*)\.register_control\((.*)\)$", e[1]) if e[0] == "call" else None
                 if not mm:
                     continue
-                args = e[2][1]
+                args = list(e[2][1]) + list(e[2][2].values())
                 if len(args) != 1 or not isinstance(args[0], Opaque) or not e[4]:
                     raise ExtractError("_get_control_managers: registration `%s` at line %s is not of a control drawn from a source loop" % (e[1], e[3]))
                 here.setdefault(mm.group(1), set()).add(e[4][-1])
@@ -1031,4 +1112,132 @@ WITNESSES = [
     dict(name="time-controls-postsolve", file=CTRL, old="        elif isinstance(condition, (TimeOfDayCondition, SimTimeCondition)):\n            return _ControlType.presolve", new="        elif isinstance(condition, (TimeOfDayCondition, SimTimeCondition)):\n            return _ControlType.postsolve", rule="R-C04-5"),
     dict(name="first-step-guard-removed", file=CORE, old="        if first_step:  # we don't want to backtrack if the sim time is 0\n            presolve_controls_to_run = [(c, 0) for c, b in presolve_controls_to_run]\n", new="", rule="R-C04-6"),
     dict(name="reader-clocktime-once", file=IO, old="            control_obj = Control._time_control(wn, run_at_time, 'CLOCK_TIME', True, action_obj, control_name)", new="            control_obj = Control._time_control(wn, run_at_time, 'CLOCK_TIME', False, action_obj, control_name)", rule="R-C04-7"),
+    # ---- behaviour-preserving variants (must stay quiet) and further mutations, added with the shape-independent rules
+    dict(name='quiet-control-type-early-returns',
+         file=CTRL,
+         silent=True,
+         old='        elif isinstance(condition, (TimeOfDayCondition, SimTimeCondition)):\n            return _ControlType.presolve\n        else:\n            return _ControlType.postsolve\n',
+         new='        if isinstance(condition, (TimeOfDayCondition, SimTimeCondition)):\n            return _ControlType.presolve\n        return _ControlType.postsolve\n'),
+    dict(name='quiet-control-type-conditional-expression',
+         file=CTRL,
+         silent=True,
+         old='        if isinstance(condition, TankLevelCondition):\n            return _ControlType.pre_and_postsolve\n        elif isinstance(condition, (TimeOfDayCondition, SimTimeCondition)):\n            return _ControlType.presolve\n        else:\n            return _ControlType.postsolve\n',
+         new='        timed = isinstance(condition, SimTimeCondition) or isinstance(condition, TimeOfDayCondition)\n        kind = _ControlType.presolve if timed else _ControlType.postsolve\n        return _ControlType.pre_and_postsolve if isinstance(condition, TankLevelCondition) else kind\n'),
+    dict(name='quiet-categorize-lookup-table',
+         file=CORE,
+         silent=True,
+         old='        def categorize_control(control):\n            if control.epanet_control_type in {_ControlType.presolve, _ControlType.pre_and_postsolve}:\n                self._presolve_controls.register_control(control)\n            if control.epanet_control_type in {_ControlType.postsolve, _ControlType.pre_and_postsolve}:\n                self._postsolve_controls.register_control(control)\n            if control.epanet_control_type == _ControlType.rule:\n                self._rules.register_control(control)\n            if control.epanet_control_type == _ControlType.feasibility:\n                self._feasibility_controls.register_control(control)\n',
+         new='        def categorize_control(control):\n            checkers_by_type = {\n                _ControlType.presolve: (self._presolve_controls,),\n                _ControlType.postsolve: (self._postsolve_controls,),\n                _ControlType.pre_and_postsolve: (self._presolve_controls, self._postsolve_controls),\n                _ControlType.rule: (self._rules,),\n                _ControlType.feasibility: (self._feasibility_controls,),\n            }\n            for checker in checkers_by_type.get(control.epanet_control_type, ()):\n                checker.register_control(control)\n'),
+    dict(name='quiet-categorize-elif-chain-merged-loops',
+         file=CORE,
+         silent=True,
+         old='        def categorize_control(control):\n            if control.epanet_control_type in {_ControlType.presolve, _ControlType.pre_and_postsolve}:\n                self._presolve_controls.register_control(control)\n            if control.epanet_control_type in {_ControlType.postsolve, _ControlType.pre_and_postsolve}:\n                self._postsolve_controls.register_control(control)\n            if control.epanet_control_type == _ControlType.rule:\n                self._rules.register_control(control)\n            if control.epanet_control_type == _ControlType.feasibility:\n                self._feasibility_controls.register_control(control)\n\n        for c_name, c in self._wn.controls():\n            categorize_control(c)\n        for c in self._get_all_tank_controls():\n            categorize_control(c)\n        for c in self._get_cv_controls():\n            categorize_control(c)\n        for c in self._get_pump_controls():\n            categorize_control(c)\n        for c in self._get_valve_controls():\n            categorize_control(c)\n',
+         new='        user_controls = [c for c_name, c in self._wn.controls()]\n        for family in (user_controls, self._get_all_tank_controls(), self._get_cv_controls(), self._get_pump_controls(), self._get_valve_controls()):\n            for c in family:\n                kind = c.epanet_control_type\n                if kind == _ControlType.rule:\n                    self._rules.register_control(c)\n                elif kind == _ControlType.feasibility:\n                    self._feasibility_controls.register_control(c)\n                else:\n                    if kind != _ControlType.postsolve:\n                        self._presolve_controls.register_control(c)\n                    if not kind == _ControlType.presolve:\n                        self._postsolve_controls.register_control(c)\n'),
+    dict(name='quiet-first-step-expression-forms',
+         file=CORE,
+         silent=True,
+         old='        if self._wn.sim_time == 0:\n            first_step = True\n        else:\n            first_step = False\n',
+         new='        first_step = bool(self._wn.sim_time == 0)\n',
+         also=[('        if first_step:\n            self._rule_iter = 1\n        else:\n            self._rule_iter = int(self._wn._prev_sim_time // self._wn.options.time.rule_timestep) + 1\n', '        self._rule_iter = 1 if first_step else int(self._wn._prev_sim_time // self._wn.options.time.rule_timestep) + 1\n')]),
+    dict(name='quiet-single-sort-renamed-locals',
+         file=CORE,
+         silent=True,
+         old='        presolve_controls_to_run.sort(key=lambda i: i[0]._priority)  # sort them by priority\n        # now sort them from largest to smallest "backtrack"; this way they are in the time-order\n        # in which they need to be activated\n        presolve_controls_to_run.sort(key=lambda i: i[1], reverse=True)\n        if first_step:  # we don\'t want to backtrack if the sim time is 0\n            presolve_controls_to_run = [(c, 0) for c, b in presolve_controls_to_run]\n',
+         new='        presolve_controls_to_run = sorted(presolve_controls_to_run, key=lambda entry: (-entry[1], entry[0]._priority))\n        if first_step:\n            presolve_controls_to_run = [(ctl, 0) for ctl, _unused in presolve_controls_to_run]\n'),
+    dict(name='quiet-advance-one-expression',
+         file=CORE,
+         silent=True,
+         old='            self._wn.sim_time += self._hydraulic_timestep\n            overstep = float(self._wn.sim_time) % self._hydraulic_timestep\n            self._wn.sim_time -= overstep\n',
+         new='            next_time = self._wn.sim_time + self._hydraulic_timestep\n            self._wn.sim_time = next_time - float(next_time) % self._hydraulic_timestep\n'),
+    dict(name='quiet-shifted-time-temporary',
+         file=MODEL,
+         silent=True,
+         old='        return self.sim_time + self.options.time.start_clocktime\n',
+         new='        start = self.options.time.start_clocktime\n        return start + self.sim_time\n'),
+    dict(name='quiet-time-control-lookup-table',
+         file=CTRL,
+         silent=True,
+         old='        if time_flag.upper() == \'SIM_TIME\':\n            condition = SimTimeCondition(model=wnm, relation=Comparison.eq, threshold=run_at_time, repeat=daily_flag,\n                                         first_time=0)\n        elif time_flag.upper() == \'CLOCK_TIME\':\n            condition = TimeOfDayCondition(model=wnm, relation=Comparison.eq, threshold=run_at_time, repeat=daily_flag,\n                                           first_day=0)\n        else:\n            raise ValueError("time_flag not recognized; expected either \'sim_time\' or \'clock_time\'")\n',
+         new='        kinds = {\'SIM_TIME\': SimTimeCondition, \'CLOCK_TIME\': TimeOfDayCondition}\n        flag = time_flag.upper()\n        if flag not in kinds:\n            raise ValueError("time_flag not recognized; expected either \'sim_time\' or \'clock_time\'")\n        condition_class = kinds[flag]\n        condition = condition_class(wnm, Comparison.eq, run_at_time, daily_flag, 0)\n'),
+    dict(name='quiet-reader-keyword-arguments',
+         file=IO,
+         silent=True,
+         old="            control_obj = Control._time_control(wn, run_at_time, 'SIM_TIME', False, action_obj, control_name)",
+         new="            when = run_at_time\n            control_obj = Control._time_control(wn, when, time_flag='SIM_TIME', daily_flag=False, control_action=action_obj, name=control_name)"),
+    dict(name='quiet-postsolve-sorted-loop',
+         file=CORE,
+         silent=True,
+         old='        postsolve_controls_to_run = self._postsolve_controls.check()\n        postsolve_controls_to_run.sort(key=lambda i: i[0]._priority)\n        for control, unused in postsolve_controls_to_run:\n',
+         new='        triggered = self._postsolve_controls.check()\n        for control, _backtrack in sorted(triggered, key=lambda pair: int(pair[0]._priority)):\n'),
+    dict(name='quiet-simtime-hoisted-threshold-early-returns',
+         file=CTRL,
+         silent=True,
+         old="        elif self._relation is Comparison.lt and cur_time < self._threshold:\n            self._backtrack = 0\n            return True\n        elif self._relation is Comparison.le and cur_time <= self._threshold:\n            self._backtrack = 0\n            return True\n        elif self._relation is Comparison.le and prev_time < self._threshold:\n            self._backtrack = int(cur_time - self._threshold)\n            return True\n        else:\n            self._backtrack = 0\n            return False\n\n\n@DocInheritor({'requires', 'evaluate', 'name'})\nclass ValueCondition",
+         new="        limit = self._threshold\n        below = {Comparison.lt: cur_time < limit, Comparison.le: cur_time <= limit}\n        if below.get(self._relation, False) == True:\n            self._backtrack = 0\n            return True\n        if self._relation is Comparison.le and not prev_time >= limit:\n            self._backtrack = int(cur_time - limit)\n            return True\n        self._backtrack = 0\n        return False\n\n\n@DocInheritor({'requires', 'evaluate', 'name'})\nclass ValueCondition"),
+    dict(name='tank-level-controls-not-postsolve',
+         file=CORE,
+         rule='R-C04-5',
+         old='            if control.epanet_control_type in {_ControlType.postsolve, _ControlType.pre_and_postsolve}:',
+         new='            if control.epanet_control_type in {_ControlType.postsolve}:'),
+    dict(name='valve-controls-not-categorised',
+         file=CORE,
+         rule='R-C04-5',
+         old='        for c in self._get_valve_controls():\n            categorize_control(c)\n',
+         new=''),
+    dict(name='type-stored-before-rule-init',
+         file=CTRL,
+         rule='R-C04-5',
+         old='        super().__init__(condition=condition, then_actions=then_action, priority=priority, name=name)\n        self._control_type = self._control_type_of(condition)\n',
+         new='        self._control_type = self._control_type_of(condition)\n        super().__init__(condition=condition, then_actions=then_action, priority=priority, name=name)\n'),
+    dict(name='overstep-not-removed',
+         file=CORE,
+         rule='R-C04-6',
+         old='            self._wn.sim_time -= overstep\n',
+         new=''),
+    dict(name='shifted-time-without-start',
+         file=MODEL,
+         rule='R-C04-2',
+         old='        return self._prev_sim_time + self.options.time.start_clocktime\n',
+         new='        return self._prev_sim_time\n'),
+    dict(name='time-control-never-repeats',
+         file=CTRL,
+         rule='R-C04-7',
+         old='            condition = TimeOfDayCondition(model=wnm, relation=Comparison.eq, threshold=run_at_time, repeat=daily_flag,',
+         new='            condition = TimeOfDayCondition(model=wnm, relation=Comparison.eq, threshold=run_at_time, repeat=False,'),
+    dict(name='rules-after-controls-moved-back-unconditionally',
+         file=CORE,
+         rule='R-C04-6',
+         old="                    if self._change_tracker.changes_made(ref_point='presolve'):\n                        # changes were actually made; we found the next timestep; update wn.sim_time and break\n                        self._wn.sim_time -= backtrack\n                        break\n",
+         new="                    self._wn.sim_time -= backtrack\n                    if self._change_tracker.changes_made(ref_point='presolve'):\n                        break\n"),
+    dict(name='feasibility-descending',
+         file=CORE,
+         rule='R-C04-3',
+         old='        feasibility_controls_to_run.sort(key=lambda i: i[0]._priority)',
+         new='        feasibility_controls_to_run.sort(key=lambda i: -i[0]._priority)'),
+    dict(name='quiet-type-helper-classmethod-through-class-name',
+         file=CTRL,
+         silent=True,
+         old='    @staticmethod\n    def _control_type_of(condition):\n',
+         new='    @classmethod\n    def _control_type_of(cls, condition):\n',
+         also=[('        super().__init__(condition=condition, then_actions=then_action, priority=priority, name=name)\n        self._control_type = self._control_type_of(condition)\n', '        super().__init__(condition=condition, then_actions=then_action, priority=priority, name=name)\n        kind = Control._control_type_of(condition)\n        self._control_type = kind\n')]),
+    dict(name='quiet-init-delegates-to-update-condition',
+         file=CTRL,
+         silent=True,
+         old='        super().__init__(condition=condition, then_actions=then_action, priority=priority, name=name)\n        self._control_type = self._control_type_of(condition)\n',
+         new='        super().__init__(condition=condition, then_actions=then_action, priority=priority, name=name)\n        self.update_condition(condition)\n'),
+    dict(name='quiet-rule-init-reordered-conditional-expression',
+         file=CTRL,
+         silent=True,
+         old="        if self._name is None:\n            self._name = ''\n        self._control_type = _ControlType.rule\n",
+         new="        self._control_type = _ControlType.rule\n        self._name = '' if self._name is None else self._name\n"),
+    dict(name='rule-type-not-stored',
+         file=CTRL,
+         rule='R-C04-5',
+         old="        if self._name is None:\n            self._name = ''\n        self._control_type = _ControlType.rule\n",
+         new="        if self._name is None:\n            self._name = ''\n"),
+    dict(name='value-conditions-classified-as-tank-level',
+         file=CTRL,
+         rule='R-C04-5',
+         old='        if isinstance(condition, TankLevelCondition):\n            return _ControlType.pre_and_postsolve\n',
+         new='        if isinstance(condition, ValueCondition):\n            return _ControlType.pre_and_postsolve\n'),
 ]
